@@ -329,6 +329,11 @@ def evaluate(case):
     if any(c.get("dtype") not in SHARED for c in spec["columns"]):
         ev.skipped = "dtype outside the shared vocabulary"
         return ev
+    from . import plx
+
+    if plx.na_false_undefined(spec, table):
+        ev.skipped = "ignore_na=False with a predicate that is true on NaN (pandas) / null on null (polars): undefined"
+        return ev
     ref = None
     if not ops:
         try:
@@ -411,8 +416,25 @@ def evaluate(case):
                            {"only_pandas": only_pd, "only_polars": only_pl, "features": feats})
             elif {(c, r) for c, r in fa if r != "check" or (c, "dtype") not in fa} != \
                     {(c, r) for c, r in fb if r != "check" or (c, "dtype") not in fb}:
-                ev.add("frame-level-failures-differ", {"pandas": sorted(map(str, fa)), "polars": sorted(map(str, fb)), "features": feats})
+                if fb - fa == {(None, "multiple_fields_uniqueness")} and not (fa - fb) and _joint_dups_only_through_nulls(spec, table):
+                    # pandas raises DUPLICATES too but drops the null-holding failure cases from its report
+                    ev.add("failing-cells-differ:pandas-omits-null-duplicates", {"joint": True, "features": feats})
+                else:
+                    ev.add("frame-level-failures-differ", {"pandas": sorted(map(str, fa)), "polars": sorted(map(str, fb)), "features": feats})
     return ev
+
+
+def _joint_dups_only_through_nulls(spec, table):
+    """every duplicated key of the joint-uniqueness subset holds a null"""
+    subset = [c for c in (spec.get("unique") or []) if any(t["name"] == c for t in table["columns"])]
+    if not subset:
+        return False
+    cols = [next(t["cells"] for t in table["columns"] if t["name"] == c) for c in subset]
+    from collections import Counter
+
+    cnt = Counter(tuple(map(repr, r)) for r in zip(*cols))
+    dups = [k for k, v in cnt.items() if v > 1]
+    return bool(dups) and all("None" in k for k in dups)
 
 
 def _added(spec, table):
@@ -470,8 +492,16 @@ def _kf_added_not_validated(family, case, disc):
 @known.finding("C08/polars-unique_values_eq-counts-null-as-a-value")
 def _kf_uve_null(family, case, disc):
     d = disc.detail if isinstance(disc.detail, dict) else {}
-    return (disc.kind.startswith("verdict-differs:polars-rejects:DATAFRAME_CHECK") and "unique_values_eq" in d.get("features", [])
-            and "has-nulls" in d.get("features", []) and "unique_values_eq" in str(d.get("msg")))
+    if "unique_values_eq" not in d.get("features", []) or "has-nulls" not in d.get("features", []):
+        return False
+    if disc.kind == "frame-level-failures-differ":
+        # both reject for other reasons; polars additionally reports the unique_values_eq check of a null-holding column
+        cols = {col["name"] for col in case["spec"]["columns"] for c in col.get("checks", []) if c["kind"] == "unique_values_eq"
+                and any(t["name"] == col["name"] and any(v is None for v in t["cells"]) for t in case["table"]["columns"])}
+        extra = set(d.get("polars", [])) - set(d.get("pandas", []))
+        return not (set(d.get("pandas", [])) - set(d.get("polars", []))) and bool(extra) and \
+            all(e in {str((c, "check")) for c in cols} for e in extra)
+    return (disc.kind.startswith("verdict-differs:polars-rejects:DATAFRAME_CHECK") and "unique_values_eq" in str(d.get("msg")))
 
 
 @known.finding("C08/polars-ignore_na-false-accepts-nulls")
